@@ -123,6 +123,15 @@ def probe(sess, op, rec=None, full=False):
                     raise Violation("C07:contains-raises", f"{where}: ({sname},{sver}) in meta of {p}: {type(e).__name__}: {e}", bool(cands))
                 if present != bool(cands):
                     raise Violation("C07:contains-wrong", f"{where}: ({sname},{sver}) in meta of {p} -> {present}", bool(cands))
+                if sver is not None and schemas.get(sname, sver) is not None:
+                    # the same question asked with a plugin reference and with the schema class
+                    for form, key in (("ref", schemas.PluginRef(name=sname, version=sver)), ("class", schemas.get(sname, sver))):
+                        try:
+                            present_k = key in h
+                        except Exception as e:  # noqa: BLE001
+                            raise Violation(f"C07:contains-raises:{form}", f"{where}: <{form} {sname} {sver}> in meta of {p}: {type(e).__name__}: {e}", present)
+                        if form == "ref" and present_k != present:
+                            raise Violation(f"C07:contains-wrong:{form}", f"{where}: {present_k}", present)
                 # unversioned request by a multi-version name: skip if the newest installed version cannot parse it
                 if sver is None and cands:
                     newest = schemas.resolve(sname)
